@@ -13,10 +13,10 @@ from ..runner import Skip
 
 RULE = ("cases from rng(seed, 4, 0, i): connected-per-cluster graphs of R^2 and/or R^3 points (2..30 vertices: trees, loops, parallel edges, "
         "point-to-point landmark edges with offsets), >=1 fixed vertex per component, initial guess displaced by 10^U(-2,6), SPD information with "
-        "cond up to 1e6, measurement noise 10^U(-3,1); optimize() with default arguments or random tol in 10^U(-10,-2), max_iter in 1..20. "
+        "cond up to 1e6, measurement noise 10^U(-3,1); optimize() with default arguments or random tol in 10^U(-10,-2), max_iter in 1..20; every 3rd case then edits the problem in place (information replaced / scaled in place, measurement, a vertex, a fixed flag) and re-optimizes the same graph object. "
         "distinct = spec fingerprint; non-trivial = some free vertex is displaced by more than 1e-3 from the optimum initially and cond(H)<=1e10.")
 REQ = ["eval:optimum-reached", "eval:final-chi2-at-optimum", "class:landmark_edges", "class:parallel_edges", "class:far_initial_guess", "class:mixed_dimensions",
-       "class:illconditioned_information", "class:shared_pose_storage"]
+       "class:illconditioned_information", "class:shared_pose_storage", "class:reoptimised_after_edits", "eval:optimum-reached-after-edits"]
 PLAN = {
     "quick": {"cases": 1600, "soft_s": 60, "min_nontrivial": 400, "require": REQ},
     "thorough": {"cases": 80000, "soft_s": 1100, "min_nontrivial": 10000, "require": REQ},
@@ -88,6 +88,46 @@ def run_case(ctx, i, rng):
     #  chi2 "increases" by one ulp - observed on the unchanged tree, see DESIGN.md "False alarms corrected")
     ctx.check("report-fields-present", res.num_iterations is not None and res.initial_chi2 is not None and 1 <= res.num_iterations <= kw.get("max_iter", 20),
               {"default_args": default_args}, {"num_iterations": res.num_iterations}, case)
+    if i % 3 == 0 and worst <= tol:
+        # history: edit the problem on the same objects (information replaced / scaled in place, measurement moved, a vertex displaced, a flag switched)
+        # and optimize again: the result must be the optimum of the *current* problem (nothing cached from the first run may survive)
+        edits = []
+        for e in g._edges:
+            u = rng.random()
+            if u < 0.25:
+                e.information = gen.spd(rng, np.asarray(e.information).shape[0], 50.0) * float(10 ** rng.uniform(-2, 2))
+                edits.append("information replaced")
+            elif u < 0.5:
+                e.information *= float(10 ** rng.uniform(-2, 2))
+                edits.append("information scaled in place")
+            elif u < 0.65:
+                e.estimate = M.mkpose(M.kind(e.estimate), [x + rng.normal() for x in M.fl(e.estimate)])
+                edits.append("estimate replaced")
+        free_v = [v for v in g._vertices if not v.fixed]
+        if free_v:
+            v = free_v[int(rng.integers(len(free_v)))]
+            v.pose = M.mkpose(M.kind(v.pose), [x + rng.normal() * 10 for x in M.fl(v.pose)])
+            if len(free_v) > 1 and rng.random() < 0.5:
+                free_v[0].fixed = True
+                edits.append("vertex newly fixed")
+        H2, b2, chi02, idx2, n2 = M.assemble(g, "ref")
+        free2 = M.free_mask(g, n2, idx2)
+        dx2, c2 = M.reduced_step(H2, b2, free2)
+        if dx2 is not None and c2 <= 1e10:
+            x02 = M.snapshot_poses(g)
+            xstar2 = [[p[j] + dx2[idx2[id(v)] + j] for j in range(len(p))] for v, p in zip(g._vertices, x02)]
+            try:
+                M.quiet_optimize(g, max_iter=int(rng.integers(1, 6)), tol=1e-9, fix_first_pose=False)
+                x2 = M.snapshot_poses(g)
+                scale2 = max(1.0, max(abs(t) for p in x02 for t in p), float(np.abs(dx2).max()))
+                tol2 = 200 * R.EPS * max(c2, 1.0) * scale2
+                worst2 = max((max(abs(a - bb) for a, bb in zip(p, q)) if all(math.isfinite(a) for a in p) else math.inf) for p, q in zip(x2, xstar2))
+                ctx.margin("optimum-reached-after-edits", worst2 / tol2)
+                ctx.check("optimum-reached-after-edits", worst2 <= tol2, {"history": "re-optimisation after edits"}, {"worst_abs_diff": worst2, "tol": tol2, "cond": c2, "edits": sorted(set(edits))},
+                          dict(case, edits=edits))
+                ctx.count("class:reoptimised_after_edits")
+            except Exception as ex:
+                ctx.check("optimum-reached-after-edits", False, {"exception": type(ex).__name__}, {"message": str(ex)[:300]}, case)
     if float(np.abs(dx).max()) > 1e-3:
         ctx.nontrivial(gen.fingerprint(spec))
     ctx.sample({"kinds": kinds, "n_vertices": len(spec["vertices"]), "n_edges": len(spec["edges"]), "cond": c, "initial_displacement": float(np.abs(dx).max()),
